@@ -180,6 +180,12 @@ def run(ctx):
             keyp = "present" if (present == [True]) else "absent"
             res.setdefault(keyp, set()).add(U.payload(pp.ret)[2])
         ctx.check(res.get("present") == {"Redacted"} and res.get("absent") == {"Original"}, "C18.redacted", f"C18.redacted:{kind}", w.where(fn), bad_msg=f"{res}")
+        # ... and on nothing else: the only facts a successful path looks at are "this parse succeeded" and the presence of unsigned / redacted_because
+        foreign = sorted({D.show_atom(a) for pp in ps if pp.kind == "ret" and U.is_ok(pp.ret) for a, t in pp.conds
+                          if not re.search(r"( is Ok|\.unsigned is (Some|None)|\.redacted_because is (Some|None))$", D.show_atom(a))})
+        ctx.check(not foreign, "C18.redacted", f"C18.redacted:{kind}:only-the-parsed-value", w.where(fn),
+                  bad_msg=f"the Original/Redacted choice also depends on {[x[:110] for x in foreign][:2]}: a test on the raw text is not a test on the JSON value "
+                          f"(a key may be spelled with \\u escapes), so an event with unsigned.redacted_because can be routed to the Original variant")
     ctx.floor("possibly-redacted kinds", n_kinds, 4)
 
     # ---- Raw<T> ------------------------------------------------------------------------------------------------------
